@@ -7,7 +7,7 @@ Each model has may-raise conditions; a `TypeError`/`IndexError`/... is produced 
 import z3
 
 from .core import (
-    V, VNone, VBool, VInt, VFloat, VStr, VList, VDict, VDate, VFunc,
+    V, VNone, VBool, VInt, VFloat, VStr, VList, VDict, VDate, VFunc, VOther,
     is_none, is_bool, is_int, is_float, is_str, is_list, is_dict, is_date, is_func, is_regex, is_other,
     Str, Int, Real, Bool, ArrIntV, Heap, numval, intval, trunc, p_isinstance_number, p_isinstance_int,
     Val, C, S, B, I, R, T, Obj, conc_to_term, is_t, is_f)
@@ -15,6 +15,9 @@ from .interp import PyRaise, OutOfReach, make_exc, PathEnd
 
 # uninterpreted operations shared by code and specifications
 POW = z3.Function('POW', Real, Real, Real)
+FLOAT_MAX_INT = z3.IntVal(2 ** 1024 - 2 ** 970)
+DATE_MIN_US = z3.IntVal(-62135596800 * 10 ** 6)
+DATE_MAX_US = z3.IntVal(253402300800 * 10 ** 6 - 1)
 STR_OF_INT = z3.Function('STR_OF_INT', Int, Str)
 STR_OF_REAL = z3.Function('STR_OF_REAL', Real, Str)
 STR_LT = None  # native z3 string order is used
@@ -117,6 +120,8 @@ def resolve_kind(ip, val, wanted):
     k = kind_of(ip, val)
     if k is not None:
         return k if k in wanted else 'else'
+    if not isinstance(val, S):
+        return 'else'
     recs = {'none': is_none, 'bool': is_bool, 'int': is_int, 'float': is_float, 'str': is_str, 'list': is_list,
             'dict': is_dict, 'date': is_date, 'func': is_func, 'regex': is_regex, 'other': is_other}
     for name in wanted:
@@ -176,7 +181,7 @@ def numkind(ip, val):
         return 'int'
     if k == 'float':
         return 'float'
-    if k is not None:
+    if k is not None or not isinstance(val, S):
         return None
     r = resolve_kind(ip, val, ('int', 'float', 'bool'))
     if r in ('int', 'bool'):
@@ -218,7 +223,7 @@ def binop(ip, op, a, b):
         except Exception as e:  # the concrete operation raises: so does the program
             raise_(type(e).__name__, str(e))
         if isinstance(r, complex):
-            return S(ip.ctx.fresh('complex', V))
+            return S(VOther(z3.IntVal(-5)))
         return C(r)
     if op == 'BitOr':
         # regex flag masks: kept abstract
@@ -274,13 +279,25 @@ def num_binop(ip, op, a, b, ka, kb):
         if op == 'Div':
             if ip.ctx.branch(y == 0):
                 raise_('ZeroDivisionError', 'division by zero')
+            if ip.ctx.branch(z3.Or(x >= FLOAT_MAX_INT, x <= -FLOAT_MAX_INT)) and ip.ctx.choice('div_overflow'):
+                raise_('OverflowError', 'integer division result too large for a float')
             return R(z3.ToReal(x) / z3.ToReal(y))
         if op == 'Pow':
             if ip.ctx.branch(z3.And(x == 0, y < 0)):
                 raise_('ZeroDivisionError', '0.0 cannot be raised to a negative power')
             if ip.ctx.branch(y >= 0):
                 return I(z3.ToInt(POW(z3.ToReal(x), z3.ToReal(y))))
+            if ip.ctx.branch(z3.Or(x >= FLOAT_MAX_INT, x <= -FLOAT_MAX_INT)):
+                raise_('OverflowError', 'int too large to convert to float')
             return R(POW(z3.ToReal(x), z3.ToReal(y)))
+    # int -> float coercion of the int operand: OverflowError iff it does not fit a double
+    for v, kk in ((a, ka), (b, kb)):
+        if kk == 'int' and not isinstance(v, C):
+            iv = int_term(ip, v)
+            if ip.ctx.branch(z3.Or(iv >= FLOAT_MAX_INT, iv <= -FLOAT_MAX_INT)):
+                raise_('OverflowError', 'int too large to convert to float')
+        elif kk == 'int' and isinstance(v, C) and abs(int(v.py)) >= 2 ** 1024:
+            raise_('OverflowError', 'int too large to convert to float')
     x, y = real_term(ip, a), real_term(ip, b)
     if op == 'Add':
         return R(x + y)
@@ -305,10 +322,11 @@ def num_binop(ip, op, a, b, ka, kb):
         if ip.ctx.branch(z3.And(x == 0, y < 0)):
             raise_('ZeroDivisionError', '0.0 cannot be raised to a negative power')
         if ip.ctx.branch(z3.And(x < 0, z3.Not(z3.IsInt(y)))):
-            return S(ip.ctx.fresh('complex', V))      # a complex number: an unknown non-BareScript value
-        hook = ip.ctx.cfg.hooks.get('pow_overflow')
-        if hook is not None:
-            hook(ip, x, y)
+            return S(VOther(z3.IntVal(-5)))           # a complex number: an unknown non-BareScript value
+        # float pow: OverflowError only if the result exceeds DBL_MAX (necessary: base not in {0, 1, -1}, exponent
+        # non-zero) — over-approximated as "may"
+        if ip.ctx.branch(z3.And(x != 0, x != 1, x != -1, y != 0)) and ip.ctx.choice('pow_overflow'):
+            raise_('OverflowError', '(34, Numerical result out of range)')
         return R(POW(x, y))
     raise OutOfReach(f'numeric operator {op}')
 
@@ -317,10 +335,9 @@ def date_add(ip, d, us, sign):
     t = d.t
     if not ip.ctx.must(V.kind(t) == 1):
         raise OutOfReach('datetime arithmetic on a non-normalised value')
-    hook = ip.ctx.cfg.hooks.get('date_overflow')
     new_us = z3.simplify(V.us(t) + sign * us)
-    if hook is not None:
-        hook(ip, new_us)
+    if ip.ctx.branch(z3.Or(new_us < DATE_MIN_US, new_us > DATE_MAX_US)):
+        raise_('OverflowError', 'date value out of range')
     return S(VDate(z3.IntVal(1), new_us))
 
 
@@ -667,7 +684,7 @@ def store_subscript(ip, obj, idx, val):
         if isinstance(idx, Obj) and idx.kind == 'slice':
             raise OutOfReach('slice assignment')
         it = index_int(ip, idx, 'list')
-        vt = ctx.to_term(val)
+        vt = ctx.stored(val)
         if ctx.branch(z3.And(it >= 0, it < n)):
             ctx.heap = ctx.heap.lset(ref, it, vt)
             return
@@ -682,7 +699,7 @@ def store_subscript(ip, obj, idx, val):
         if ik in ('list', 'dict'):
             raise_('TypeError', 'unhashable type')
         kt = key_term(ip, idx_n)
-        vt = ctx.to_term(val)
+        vt = ctx.stored(val)
         ctx.heap = ctx.heap.dset(ref, kt, vt)
         return
     raise_('TypeError', 'object does not support item assignment')
